@@ -13,6 +13,7 @@ mod cases;
 mod choices;
 mod compose;
 mod evolution;
+mod gp;
 mod functional;
 mod generation;
 mod laws;
@@ -53,6 +54,8 @@ fn dispatch(cmd: &str, rest: &[String]) -> i32 {
         "ch-huge" => choices::huge(rest),
         "cases-trace" => cases::trace(rest),
         "evo-trace" => evolution::trace(rest),
+        "gp-trace" => gp::trace(rest),
+        "gp-replay" => gp::replay(rest),
         "cmp-replay" => compose::replay(rest),
         "cmp-trace" => compose::trace(rest),
         "law-var" => laws::run(rest),
